@@ -24,7 +24,7 @@ GNext == \E g \in Gor :
 
 GenSpec == GInit /\ [][GNext]_gvars
 
-Done == \A g \in Gor : th[g].pc = "idle" /\ th[g].n = MaxOps
+Done == \A g \in Gor : th[g].pc = "idle" /\ th[g].n = MaxOpsOf[g]
 
 Conflicts(a, b) == {x[1][1][1] : x \in {y \in a \X b : y[1][1] = y[2][1] /\ (y[1][2] = "w" \/ y[2][2] = "w")}}
 
